@@ -62,11 +62,15 @@ ADD_POOL = ["AA", "AA2", "AT1", "AT_aa2", "SUB", "AT_sub", "AT_root", "AT_esc", 
             "AT_cam", "AT_win",
             # several issuing groups / several application entries in every order (escalating PSID first / last / middle, 'all' mixed in)
             "AA_n", "SUB_mg_first", "SUB_mg_last", "SUB_mg_mid", "SUB_mg_allfirst", "SUB_mg_alllast", "SUB_mg_ok",
-            "AT_mg139_first", "AT_mg139_last", "AT_mg139_mid", "AT_mgok", "AT_app_first", "AT_app_last", "AT_app_mid"]
+            "AT_mg139_first", "AT_mg139_last", "AT_mg139_mid", "AT_mgok", "AT_app_first", "AT_app_last", "AT_app_mid",
+            # signed with the own key only, issuer field names a trusted certificate (root / AA digest; CA and ticket), and their tickets
+            "AA_selfR", "AA_selfAA", "AT_selfR", "AT_u_selfR", "AT_u_selfAA"]
 EXTRA_CHAINS = [("SUB_mg_first", "AA_n"), ("SUB_mg_last", "AA_n"), ("SUB_mg_mid", "AA_n"), ("SUB_mg_allfirst", "AA_n"),
                 ("SUB_mg_alllast", "AA_n"), ("SUB_mg_ok", "AA_n"), ("SUB_mg_first", "AA_n", "R"), ("SUB_mg_mid", "AA_n", "R"),
                 ("AT_app_first", "AA_n"), ("AT_app_last", "AA_n"), ("AT_app_mid", "AA_n", "R"), ("AT_mg139_first",), ("AT_mg139_mid",),
-                ("AT_mg139_last",), ("AT_mgok",)]
+                ("AT_mg139_last",), ("AT_mgok",),
+                ("AA_selfR",), ("AT_selfR",), ("AT_selfclaim",), ("AT_u_selfR", "AA_selfR"), ("AT_u_selfR", "AA_selfR", "R"),
+                ("AT_u_selfAA", "AA_selfAA"), ("AT_u_selfAA",), ("AT_u_selfR",), ("AA_selfAA", "AA"), ("AT_selfR", "R")]
 CHAIN_POOL_Q = ["AT1", "AT'", "AA", "AA'", "R", "R'", "SUB_all", "AT_esc"]
 CHAIN_POOL_T = CHAIN_POOL_Q + ["AT_suball", "SUB", "AT_sub", "AA2"]
 
@@ -99,7 +103,10 @@ def build_messages():
         mk("AT_mgok", mode, S.PSID_CAM, 0)
         mk("AT_mgok", mode, S.PSID_GEN, 0)
     # certificates arriving inside (authentic) messages: requestedCertificate learning path
-    for c in ("AA2", "AA'", "AA_self", "SUB_all", "R'"):
+    for x in ("AT_u_selfR", "AT_u_selfAA", "AT_selfR", "AT_selfclaim"):
+        for mode in ("cert", "digest"):
+            mk(x, mode, S.PSID_CAM, 0)
+    for c in ("AA2", "AA'", "AA_self", "SUB_all", "R'", "AA_selfR", "AA_selfAA", "AT_selfR"):
         mk("AT1", "cert", S.PSID_CAM, 0, extra={"requestedCertificate": p.d(c), "inlineP2pcdRequest": [p.h8("AA")[-3:]]}, tag=f"/req:{c}")
     return out
 
